@@ -226,6 +226,7 @@ package grpc
 //@ func (*serverStream).SendMsg
 //@   prop C27 C21
 //@   requires ss != nil && ss.s != nil
+//@   requires errContextDeadline != nil && isstatus(errContextDeadline) && errContextCanceled != nil && isstatus(errContextCanceled)
 //@   requires implies(ss.compressorV0 != nil || ss.compressorV1 != nil, ss.sendCompressorName != "" && ss.sendCompressorName != "identity")
 //@   assert at call prepareMsg#1 ss.sendCompressorName == ss.s.SendCompress()
 //@   assert at call prepareMsg#1 arg2 == ss.compressorV0 && arg3 == ss.compressorV1
